@@ -345,6 +345,63 @@ func (r *Replica) ExecBlockAt(h uint64, txs []pb.Transaction, ts int64, local []
 	}
 }
 
+// PipeBlock is one block of a pipelined run.
+type PipeBlock struct {
+	Txs   []pb.Transaction
+	TS    int64
+	Local []bool
+}
+
+// ExecPipelined hands several blocks to the executor at once, as consensus does when it runs ahead: the executor
+// checks signatures of block n+2 and executes block n+1 while block n is still being committed. The results
+// come back in order. (No root monitor here: while the next block runs, dirty state is what there should be.)
+func (r *Replica) ExecPipelined(blocks []PipeBlock) ([]*BlockResult, error) {
+	h0 := r.Height()
+	go func() {
+		for i, b := range blocks {
+			local := b.Local
+			if local == nil {
+				local = make([]bool, len(b.Txs))
+			}
+			blk := &pb.Block{
+				BlockHeader:  &pb.BlockHeader{Number: h0 + 1 + uint64(i), Timestamp: b.TS},
+				Transactions: &pb.Transactions{Transactions: b.Txs},
+			}
+			r.Exec.ExecuteBlock(&pb.CommitEvent{Block: blk, LocalList: local})
+		}
+	}()
+	var out []*BlockResult
+	for range blocks {
+		select {
+		case ev := <-r.blockCh:
+			res := &BlockResult{Height: ev.Block.BlockHeader.Number, Block: ev.Block, Meta: ev.InterchainMeta}
+			if !r.Opts.NoRouter {
+				if r.routerMon == nil {
+					r.routerMon = newRouterMon(r)
+				}
+				r.RouterFindings = append(r.RouterFindings, r.routerMon.Check(ev.Block, ev.InterchainMeta)...)
+				r.RouterBlocks++
+			}
+			out = append(out, res)
+		case <-time.After(r.Opts.Watchdog):
+			return out, ErrWatchdog
+		}
+	}
+	for i, res := range out {
+		if res.Height != h0+1+uint64(i) {
+			return out, fmt.Errorf("pipelined run: executed event %d is for height %d, expected %d", i, res.Height, h0+1+uint64(i))
+		}
+		for _, tx := range blocks[i].Txs {
+			rc, err := r.L.GetReceipt(tx.GetHash())
+			if err != nil {
+				return out, fmt.Errorf("receipt of tx %s missing: %v", tx.GetHash().String(), err)
+			}
+			res.Receipts = append(res.Receipts, rc)
+		}
+	}
+	return out, nil
+}
+
 // Dump returns every key/value of the state store (journal-* keys kept under their names).
 func DumpStore(s storage.Storage) map[string][]byte {
 	out := map[string][]byte{}
